@@ -656,6 +656,38 @@ pub fn redim_in_sub_programs() -> Vec<(Prog, String)> {
                 out.push((Prog { main, subs: vec![grow, show], declare: true, ..Default::default() }, format!("REDIM inside a SUB, {:?}, {}", elem, if shared { "array SHARED by the module" } else { "name not shared: a local array" })));
             }
         }
+        // REDIM SHARED at module level, then a plain REDIM of the same array at module level: it stays SHARED
+        {
+            let mut b = B::new();
+            let s1 = Shape { dims: vec![(1, 3)], explicit: true };
+            let s2 = Shape { dims: vec![(1, 6)], explicit: true };
+            let an = arr_name("A", elem);
+            let mut d1 = dim_stmt(&mut b, "A", &s1, elem);
+            if let K::Dim { redim, shared, .. } = &mut d1.k {
+                *redim = true;
+                *shared = true;
+            }
+            let mut d2 = dim_stmt(&mut b, "A", &s2, elem);
+            if let K::Dim { redim, .. } = &mut d2.k {
+                *redim = true;
+            }
+            let mut main = vec![d1, b.s(K::Call("Show".into(), vec![])), d2];
+            for (loc, val) in cell_writes("A", elem, &[5], 9) {
+                main.push(b.assign(loc, val));
+            }
+            main.push(b.s(K::Call("Show".into(), vec![])));
+            main.push(b.print(vec![st("m"), builtin("UBOUND", vec![var(&an)])]));
+            let body = vec![b.print(vec![st("s"), builtin("UBOUND", vec![var(&an)]), st("["), Expr::Index(an.clone(), vec![builtin("UBOUND", vec![var(&an)])]), st("]")])];
+            let id = b.id();
+            let mut body = body;
+            // the SUB also writes the last cell, which the module then reads
+            for (loc, val) in cell_writes("A", elem, &[1], 4) {
+                body.push(b.assign(loc, val));
+            }
+            main.push(b.print(vec![st("m1"), st("["), Expr::Index(an.clone(), vec![num(1)]), st("]")]));
+            let show = SubDef { id, name: "Show".into(), is_function: false, params: vec![], body, is_static: false };
+            out.push((Prog { main, subs: vec![show], declare: true, ..Default::default() }, format!("REDIM SHARED, then a plain REDIM at module level, {:?}", elem)));
+        }
     }
     out
 }
